@@ -268,7 +268,7 @@ def buckets(tier):
     for fam in single:
         bl.append(Bucket('op:' + fam,
                          (lambda fam=fam: pairing_cases(tier, first=fam, families=CHEAP_TAIL, max_len=3, min_len=1)),
-                         prop_pairing, {'quick': 80 if fam in ('fft', 'set', 'rmw', 'reshape', 'bcast', 'pow') else 40, 'thorough': 400},
+                         prop_pairing, {'quick': 300 if fam in ('fft', 'set', 'rmw', 'reshape', 'bcast', 'pow') else 150, 'thorough': 800},
                          nontrivial=_nontrivial, classes=_classes,
                          weight=3.0 if fam in ('special', 'unp', 'eigh', 'svd', 'fft') else 1.0))
     # (minimum/maximum of tracer nodes fall through to numpy.minimum on objects, which *selects one operand at recording time*:
@@ -285,6 +285,6 @@ def buckets(tier):
                      {'quick': 30, 'thorough': 300}, nontrivial=(lambda case: 'nonlinear' in PG.features(case) and case['P'] >= 2),
                      classes=_classes))
     bl.append(Bucket('compose', (lambda: pairing_cases(tier, max_len=10, min_len=2)), prop_pairing,
-                     {'quick': 30, 'thorough': 1200}, nontrivial=_nontrivial, classes=_classes,
-                     shards={'quick': 12, 'thorough': 16}, weight=4.0))
+                     {'quick': 150, 'thorough': 2000}, nontrivial=_nontrivial, classes=_classes,
+                     shards={'quick': 16, 'thorough': 16}, weight=4.0))
     return bl
